@@ -56,6 +56,23 @@ def wall_cap(tier: str) -> int:
 # ---------------------------------------------------------------------------
 
 
+# index expressions beyond ints and single slices: (minimum number of axes, index).  numpy moves the broadcast axes of
+# non-adjacent advanced indices to the front
+FANCY = {
+    "0,:,[0,1]": (3, (0, slice(None), [0, 1])),
+    "[1,0],:,[1,0]": (3, ([1, 0], slice(None), [1, 0])),
+    "[0,1],0": (2, ([0, 1], 0)),
+    ":,[1,0,1]": (2, (slice(None), [1, 0, 1])),
+    "...,[1,0]": (2, (Ellipsis, [1, 0])),
+    "[[0],[1]],:,[0,1]": (3, ([[0], [1]], slice(None), [0, 1])),
+    "None,1,::-1": (2, (None, 1, slice(None, None, -1))),
+    "[0,1],[1,0]": (2, ([0, 1], [1, 0])),
+    "1,...,0": (2, (1, Ellipsis, 0)),
+    ":,0,[1,1,0]": (3, (slice(None), 0, [1, 1, 0])),
+    "[1],:,[0]": (3, ([1], slice(None), [0])),
+}
+
+
 def _data(ch: core.Chooser, dtype: str, size: int, allow_neg: bool = True) -> list:
     kind = numpy.dtype(dtype).kind
     if kind == "b":
@@ -102,7 +119,8 @@ def generate(rs: int, tier: str, index: int) -> dict:
         d2 = ch.sub("swapped").choice([">f8", ">i8", ">u4", ">c16", ">f4", ">i2", ">u8"])
     step: Dict[str, Any] = {"id": 0, "k": kind, "d1": d1, "d2": d2}
     if kind == "ctor":
-        how = ch.choice(["polynomial_dtype", "aspolynomial_dtype", "from_attributes_dtype", "from_attributes_mixed", "dict", "variable", "symbols", "astype", "from_data", "aspolynomial_poly_dtype", "polynomial_list"])
+        how = ch.choice(["polynomial_dtype", "aspolynomial_dtype", "from_attributes_dtype", "from_attributes_mixed", "dict", "variable", "symbols", "astype", "from_data", "aspolynomial_poly_dtype", "polynomial_list", "aspolynomial_poly_names_dtype"])
+        step["value"] = ch.sub("v").below(3)
         if cast_cell:
             how = CASTS[(index // len(DTYPES) ** 2) % len(CASTS)]
         elif d2.startswith(">"):
@@ -141,8 +159,11 @@ def generate(rs: int, tier: str, index: int) -> dict:
             nb["coefficients"] = [[float(numpy.nextafter(numpy.dtype(d1).type(v), numpy.dtype(d1).type(numpy.inf if cn.chance(0.5) else -numpy.inf))) if cn.chance(0.7) else v for v in col] for col in a["coefficients"]]
             step["b"] = nb
     elif kind == "shape":
-        step["fn"] = ch.choice(["getitem", "reshape", "transpose", "concatenate", "where", "diff", "ediff1d", "getitem_mask", "stack", "repeat", "tile", "expand_dims", "sum", "cumsum"])
+        step["fn"] = ch.choice(["getitem", "reshape", "transpose", "concatenate", "where", "diff", "ediff1d", "getitem_mask", "stack", "repeat", "tile", "expand_dims", "sum", "cumsum", "getitem_fancy", "getitem_fancy"])
         shape = ch.choice([(2,), (3,), (2, 2), (2, 3)])
+        if step["fn"] == "getitem_fancy":
+            shape = ch.choice([(2, 3, 2), (2, 2, 3), (3, 2, 2), (2, 3)])
+            step["index"] = ch.choice(sorted(k for k, v in FANCY.items() if v[0] <= len(shape)))
         step["a"] = _poly(ch.sub("a"), d1, shape=shape)
         step["b"] = _poly(ch.sub("b"), d2, shape=shape, names=step["a"]["names"] if ch.chance(0.5) else None)
         size = int(numpy.prod(shape, dtype=int))
@@ -318,6 +339,14 @@ class Runner:
                 return (lambda: self.build(p).astype(d2)), Expect(d2, tuple(p["shape"]), _strip({key: v.astype(d2) for key, v in _model(p).items()})), how, where
             if how == "aspolynomial_poly_dtype":
                 return (lambda: numpoly.aspolynomial(self.build(p), dtype=d2)), Expect(d2, tuple(p["shape"]), _strip({key: v.astype(d2) for key, v in _model(p).items()})), how, where
+            if how == "aspolynomial_poly_names_dtype":
+                # the names it already has (spelled as tuple, list or as a polynomial carrying them) together with a dtype request
+                def thunk_nd():
+                    q = self.build(p)
+                    spelled = [tuple(q.names), list(q.names), q.indeterminants][step.get("value", 0) % 3]
+                    return numpoly.aspolynomial(q, names=spelled, dtype=d2)
+
+                return thunk_nd, Expect(d2, tuple(p["shape"]), _strip({key: v.astype(d2) for key, v in _model(p).items()})), how, where
             raise core.HarnessError(how)
         if k == "arith":
             op = step["op"]
@@ -413,6 +442,14 @@ class Runner:
             if fn == "getitem":
                 i = step["idx"]
                 return (lambda: self.build(a)[i]), Expect(d1, sa[1:], _strip({key: v[i] for key, v in ma.items()})), fn, w1
+            if fn == "getitem_fancy":
+                index = FANCY[step["index"]][1]
+                try:
+                    want = {key: v[index] for key, v in ma.items()}
+                    wshape = numpy.zeros(sa)[index].shape
+                except IndexError:
+                    return (lambda: self.build(a)[index]), Expect(raises=True), fn, w1
+                return (lambda: self.build(a)[index]), Expect(d1, wshape, _strip(want)), fn, dict(w1, size0=not int(numpy.prod(wshape, dtype=int)))
             if fn == "getitem_mask":
                 mask = numpy.array(step["mask"], dtype=bool).reshape(sa)
                 return (lambda: self.build(a)[mask]), Expect(d1, (int(mask.sum()),), _strip({key: v[mask] for key, v in ma.items()})), fn, dict(w1, size0=not mask.any())
